@@ -23,6 +23,10 @@ enum Item {
     Remove(usize, u32),
     Clear(usize),
     Sweep,
+    /// executed but not observed (keeps the driver cheap on long id-ordered loads)
+    QSet(usize, u32, Val),
+    /// observation of one row (and its neighbours) without executing anything
+    Probe(usize),
 }
 
 fn show_val(v: &Val) -> String {
@@ -107,6 +111,8 @@ fn render(items: &[Item]) -> String {
             Item::Remove(r, k) => format!("r{}.{}", r, k),
             Item::Clear(r) => format!("c{}", r),
             Item::Sweep => "O".into(),
+            Item::QSet(r, k, v) => format!("q{}.{}.{}", r, k, show_val(v)),
+            Item::Probe(r) => format!("P{}", r),
         })
         .collect::<Vec<_>>()
         .join(";")
@@ -121,7 +127,21 @@ fn parse(s: &str) -> Option<Vec<Item>> {
         }
         let (k, rest) = p.split_at(1);
         let f: Vec<&str> = rest.split('.').collect();
+        if k == "F" {
+            // F<start>.<count>.<key>.<kind>.<off>: a run of quiet sets
+            if let [a, n, key, kind, off] = f.as_slice() {
+                let (a, n, key, kind, off): (usize, usize, u32, u8, u64) =
+                    (a.parse().ok()?, n.parse().ok()?, key.parse().ok()?, kind.parse().ok()?, off.parse().ok()?);
+                for j in 0..n {
+                    out.push(Item::QSet(a + j, key, fill_val(kind, off + j as u64)?));
+                }
+                continue;
+            }
+            return None;
+        }
         out.push(match (k, f.as_slice()) {
+            ("q", [r, key, v]) => Item::QSet(r.parse().ok()?, key.parse().ok()?, parse_val(v)?),
+            ("P", [r]) => Item::Probe(r.parse().ok()?),
             ("s", [r, key, v]) => Item::Set(r.parse().ok()?, key.parse().ok()?, parse_val(v)?),
             ("r", [r, key]) => Item::Remove(r.parse().ok()?, key.parse().ok()?),
             ("c", [r]) => Item::Clear(r.parse().ok()?),
@@ -129,6 +149,17 @@ fn parse(s: &str) -> Option<Vec<Item>> {
         });
     }
     Some(out)
+}
+
+/// value `x` of a fill (same table as `fillVal?` in Driver/Column.lean)
+fn fill_val(kind: u8, x: u64) -> Option<Val> {
+    Some(match kind {
+        0 => Val::Int(x as i64 - 3),
+        2 => Val::Str(x % 50),
+        3 => Val::Bool(x % 2 == 0),
+        4 => Val::Int(3 * x as i64 - 7),
+        _ => return None,
+    })
 }
 
 /// order of first appearance
@@ -149,21 +180,27 @@ struct RealRun {
     obs: String,
     repr_changes: u64,
     events: Vec<&'static str>,
+    /// the call that panicked: (index of the item, the item as text)
+    panic_at: Option<(usize, String)>,
 }
 
 /// drive the real ColumnStore; one observation per item (same text as the Lean `showObs`)
 fn run_real(items: &[Item]) -> RealRun {
     let keys: Vec<u32> = dedup_keep(items.iter().filter_map(|it| match it {
-        Item::Set(_, k, _) | Item::Remove(_, k) => Some(*k),
+        Item::Set(_, k, _) | Item::QSet(_, k, _) | Item::Remove(_, k) => Some(*k),
         _ => None,
     }));
-    let rows: Vec<usize> = dedup_keep(items.iter().filter_map(|it| match it {
-        Item::Set(r, _, _) | Item::Remove(r, _) | Item::Clear(r) => Some(*r),
-        Item::Sweep => None,
-    }));
+    let rows: Vec<usize> = if items.iter().any(|it| matches!(it, Item::Sweep)) {
+        dedup_keep(items.iter().filter_map(|it| match it {
+            Item::Set(r, _, _) | Item::QSet(r, _, _) | Item::Remove(r, _) | Item::Clear(r) => Some(*r),
+            Item::Sweep | Item::Probe(_) => None,
+        }))
+    } else {
+        vec![]
+    };
     let names: Vec<String> = keys.iter().map(|k| format!("k{}", k)).collect();
     let mut st = ColumnStore::new();
-    let mut obs: Vec<String> = Vec::with_capacity(items.len());
+    let mut obs: Vec<String> = Vec::new();
     let mut prev_dense: Vec<Option<bool>> = vec![None; keys.len()];
     let mut prev_typed: Vec<Option<bool>> = vec![None; keys.len()];
     let mut repr_changes = 0;
@@ -171,9 +208,12 @@ fn run_real(items: &[Item]) -> RealRun {
     let mut events: Vec<&'static str> = vec![];
     // per key: min / max row ever set (a superset of any dense band of that column)
     let mut span: std::collections::HashMap<u32, (usize, usize)> = std::collections::HashMap::new();
-    for it in items {
-        let (probe_rows, key_rows): (Vec<usize>, Vec<usize>) = match it {
-            Item::Set(r, k, v) => {
+    let mut panic_at: Option<(usize, String)> = None;
+    for (step, it) in items.iter().enumerate() {
+        let around = |r: &usize| -> Vec<usize> { if *r == 0 { vec![0, 1] } else { vec![r - 1, *r, r + 1] } };
+        // the write itself, with a panic of the store caught and reported as the failing step
+        let exec = std::panic::catch_unwind(std::panic::AssertUnwindSafe(|| match it {
+            Item::Set(r, k, v) | Item::QSet(r, k, v) => {
                 let name = format!("k{}", k);
                 let was_dense = st.get_column(&name).map_or(false, |c| c.is_dense());
                 st.set_property(*r, &name, to_pv(v));
@@ -188,16 +228,52 @@ fn run_real(items: &[Item]) -> RealRun {
                 } else {
                     span.insert(*k, (*r, *r));
                 }
-                (if *r == 0 { vec![0, 1] } else { vec![r - 1, *r, r + 1] }, vec![*r])
             }
-            Item::Remove(r, k) => {
-                st.remove_property(*r, &format!("k{}", k));
-                (if *r == 0 { vec![0, 1] } else { vec![r - 1, *r, r + 1] }, vec![*r])
+            Item::Remove(r, k) => st.remove_property(*r, &format!("k{}", k)),
+            Item::Clear(r) => st.clear_row(*r),
+            Item::Sweep | Item::Probe(_) => {}
+        }));
+        if exec.is_err() {
+            panic_at = Some((step, render(std::slice::from_ref(it))));
+            break;
+        }
+        // representation events (also for quiet writes)
+        let quiet = matches!(it, Item::QSet(..));
+        let mut lens = vec![];
+        let mut dense = String::new();
+        for (j, n) in names.iter().enumerate() {
+            match st.get_column(n) {
+                Some(c) => {
+                    let d = c.is_dense();
+                    if !quiet {
+                        lens.push(c.len().to_string());
+                        dense.push(if d { '1' } else { '0' });
+                    }
+                    let typed = !matches!(c, samyama::graph::storage::Column::Other(_));
+                    if let Some(p) = prev_dense[j] {
+                        if p != d {
+                            repr_changes += 1;
+                            events.push(if d { "repr:promotion(sparse->dense)" } else if typed { "repr:demotion(dense->sparse)" } else { "repr:spill-from-dense" });
+                        }
+                    }
+                    if let Some(true) = prev_typed[j] {
+                        if !typed {
+                            repr_changes += 1;
+                            events.push("repr:spill(typed->other)");
+                        }
+                    }
+                    prev_dense[j] = Some(d);
+                    prev_typed[j] = Some(typed);
+                }
+                None => {
+                    lens.push("_".into());
+                    dense.push('_');
+                }
             }
-            Item::Clear(r) => {
-                st.clear_row(*r);
-                (if *r == 0 { vec![0, 1] } else { vec![r - 1, *r, r + 1] }, vec![*r])
-            }
+        }
+        let (probe_rows, key_rows): (Vec<usize>, Vec<usize>) = match it {
+            Item::QSet(..) => continue,
+            Item::Set(r, _, _) | Item::Remove(r, _) | Item::Clear(r) | Item::Probe(r) => (around(r), vec![*r]),
             Item::Sweep => (rows.clone(), rows.clone()),
         };
         let mut gets = Vec::with_capacity(probe_rows.len() * names.len());
@@ -224,39 +300,9 @@ fn run_real(items: &[Item]) -> RealRun {
                 ks.push(l.iter().map(|k| k.trim_start_matches('k').to_string()).collect::<Vec<_>>().join("."));
             }
         }
-        let mut lens = vec![];
-        let mut dense = String::new();
-        for (j, n) in names.iter().enumerate() {
-            match st.get_column(n) {
-                Some(c) => {
-                    lens.push(c.len().to_string());
-                    let d = c.is_dense();
-                    dense.push(if d { '1' } else { '0' });
-                    let typed = !matches!(c, samyama::graph::storage::Column::Other(_));
-                    if let Some(p) = prev_dense[j] {
-                        if p != d {
-                            repr_changes += 1;
-                            events.push(if d { "repr:promotion(sparse->dense)" } else if typed { "repr:demotion(dense->sparse)" } else { "repr:spill-from-dense" });
-                        }
-                    }
-                    if let Some(true) = prev_typed[j] {
-                        if !typed {
-                            repr_changes += 1;
-                            events.push("repr:spill(typed->other)");
-                        }
-                    }
-                    prev_dense[j] = Some(d);
-                    prev_typed[j] = Some(typed);
-                }
-                None => {
-                    lens.push("_".into());
-                    dense.push('_');
-                }
-            }
-        }
         obs.push(format!("{}|{}|{}|{}", gets.join(","), ks.join(","), lens.join(","), dense));
     }
-    RealRun { byid_mismatch, obs: obs.join(";"), repr_changes, events }
+    RealRun { byid_mismatch, obs: obs.join(";"), repr_changes, events, panic_at }
 }
 
 /// strip the (never compared) dense field of every observation
@@ -435,6 +481,100 @@ fn scenario(kind: u8, variant: u8) -> Vec<Item> {
     items
 }
 
+/// one history; `text` is a compressed rendering (fills as `F…`) when there is one
+struct Case {
+    items: Vec<Item>,
+    text: Option<String>,
+    /// (family, base) of a large-band case
+    band: Option<(&'static str, usize)>,
+}
+
+impl Case {
+    fn plain(items: Vec<Item>) -> Case {
+        Case { items, text: None, band: None }
+    }
+}
+
+/// builder that keeps the expanded items and the compressed text in step
+struct Hist {
+    items: Vec<Item>,
+    text: Vec<String>,
+}
+
+impl Hist {
+    fn new() -> Hist {
+        Hist { items: vec![], text: vec![] }
+    }
+    fn fill(&mut self, start: usize, count: usize, key: u32, kind: u8, off: u64) {
+        for j in 0..count {
+            self.items.push(Item::QSet(start + j, key, fill_val(kind, off + j as u64).expect("fill kind")));
+        }
+        self.text.push(format!("F{}.{}.{}.{}.{}", start, count, key, kind, off));
+    }
+    fn push(&mut self, it: Item) {
+        self.text.push(render(std::slice::from_ref(&it)));
+        self.items.push(it);
+    }
+    fn done(self, family: &'static str, base: usize) -> Case {
+        Case { items: self.items, text: Some(self.text.join(";")), band: Some((family, base)) }
+    }
+}
+
+/// "large band" family, mixed workload: an id-ordered load of `n` rows base..base+n on key 1
+/// (typed, so the column is sparse until its entry count crosses 1024 and is then promoted),
+/// a sparser string property on every 7th row, and every 97 rows an overwrite, a remove, a
+/// clear_row and a re-set inside the part already loaded.  The sparse hash map's iteration
+/// order — which promotion walks — depends on the key set, i.e. on `base`.
+fn band_mixed(base: usize, n: usize, kind: u8, sweep: bool) -> Case {
+    let mut h = Hist::new();
+    let mut i = 0usize;
+    while i < n {
+        let cnt = (97 - i % 97).min(n - i);
+        h.fill(base + i, cnt, 1, kind, i as u64);
+        for j in i..i + cnt {
+            if j % 7 == 0 {
+                h.push(Item::QSet(base + j, 2, Val::Str(1 + (j as u64 % 40))));
+            }
+        }
+        i += cnt;
+        if i % 97 == 0 {
+            let e = i - 1; // the step index of the edit, as in a loader that edits while loading
+            h.push(Item::Set(base + e / 2, 1, fill_val(kind, 5000 + e as u64).unwrap()));
+            h.push(Item::Remove(base + e / 3, 1));
+            h.push(Item::Clear(base + e / 5));
+            h.push(Item::Set(base + e / 3, 1, fill_val(kind, 7000 + e as u64).unwrap()));
+        }
+    }
+    for r in [base, base + 1, base + n - 1, base + n, base + 1023, base + 1024, base + n / 2] {
+        h.push(Item::Probe(r));
+    }
+    for k in 0..20 {
+        h.push(Item::Probe(base + (k * 67) % n));
+    }
+    h.push(Item::Set(base + n, 1, fill_val(kind, 1).unwrap())); // one more row above the band
+    h.push(Item::Clear(base));
+    h.push(Item::Probe(base + 100_000));
+    if sweep {
+        h.push(Item::Sweep);
+    }
+    h.done("mixed", base)
+}
+
+/// "large band" family, plain workload: nothing but the id-ordered load, then a few edits
+fn band_plain(base: usize, n: usize, kind: u8) -> Case {
+    let mut h = Hist::new();
+    h.fill(base, n, 1, kind, 0);
+    for r in [base, base + n - 1, base + n, base + 1023, base + 1024, base + 512] {
+        h.push(Item::Probe(r));
+    }
+    h.push(Item::Remove(base + 5, 1));
+    h.push(Item::Clear(base + n - 1));
+    h.push(Item::Set(base + n, 1, fill_val(kind, 2).unwrap()));
+    h.push(Item::Set(base + 5, 1, fill_val(kind, 3).unwrap()));
+    h.push(Item::Probe(base + n - 1));
+    h.done("plain", base)
+}
+
 fn small_case(rng: &mut Rng) -> Vec<Item> {
     let mut items = vec![];
     for _ in 0..3 + rng.usize(30) {
@@ -468,7 +608,8 @@ fn main() {
     let mut rep = Report::new(
         "C30",
         "op histories set_property/remove_property/clear_row on the real ColumnStore; get_property for the touched neighbourhood and \
-         get_property_keys after every op, full sweeps of every touched (row,key) at stage boundaries; non-trivial = a column of the real \
+         get_property_keys after every op, full sweeps of every touched (row,key) at stage boundaries; a large-band family (id-ordered loads of >= 1100 rows at every base position, \
+         unobserved fill writes, observed periodic edits and row probes, a panic of the store = violation with base and step); non-trivial = a column of the real \
          store switched between the sparse and the dense representation at least once during the history (typed->Other spills of small \
          columns are counted in the histogram but do not make a case non-trivial); distinct = distinct rendered history",
         &args.replays,
@@ -476,7 +617,8 @@ fn main() {
     );
     let exe = args.driver_exe("drv_column");
 
-    let mut cases: Vec<Vec<Item>> = vec![];
+    std::panic::set_hook(Box::new(|_| {})); // panics of the store are caught and reported as cases, not printed
+    let mut cases: Vec<Case> = vec![];
     let mut files: Vec<std::path::PathBuf> = vec![];
     if let Some(r) = &args.replay {
         files.push(r.clone());
@@ -489,20 +631,20 @@ fn main() {
         for line in std::fs::read_to_string(f).unwrap_or_default().lines() {
             if let Some(rest) = line.trim().strip_prefix("ops ") {
                 if let Some(c) = parse(rest.trim()) {
-                    cases.push(c);
+                    cases.push(Case::plain(c));
                     n_corpus += 1;
                 }
             } else if let Some(rest) = line.trim().strip_prefix("scn ") {
                 // "scn <kind> <variant>" = the deterministic scenario for that column type
                 let f: Vec<&str> = rest.split_whitespace().collect();
                 if let (Some(k), Some(v)) = (f.first().and_then(|x| x.parse::<u8>().ok()), f.get(1).and_then(|x| x.parse::<u8>().ok())) {
-                    cases.push(scenario(k % 4, v % 2));
+                    cases.push(Case::plain(scenario(k % 4, v % 2)));
                     n_corpus += 1;
                 }
             } else if let Some(rest) = line.trim().strip_prefix("gen ") {
                 // compact corpus form: "gen <seed>" = the adversarial generator at that seed
                 if let Ok(s) = rest.trim().parse::<u64>() {
-                    cases.push(big_case(&mut Rng::new(s), true));
+                    cases.push(Case::plain(big_case(&mut Rng::new(s), true)));
                     n_corpus += 1;
                 }
             }
@@ -514,39 +656,83 @@ fn main() {
         let mut rng = Rng::new(args.seed);
         for kind in 0..4u8 {
             for variant in 0..2u8 {
-                cases.push(scenario(kind, variant));
+                cases.push(Case::plain(scenario(kind, variant)));
             }
         }
         rep.count_n("deterministic_scenarios(4 column types x {re-promote, descending+first/last clear})", 8);
         let (n_big, n_small) = if args.thorough() { (160, 12_000) } else { (18, 2_000) };
         for _ in 0..n_big {
             let mut r = rng.fork();
-            cases.push(big_case(&mut r, args.thorough()));
+            cases.push(Case::plain(big_case(&mut r, args.thorough())));
         }
         for _ in 0..n_small {
             let mut r = rng.fork();
-            cases.push(small_case(&mut r));
+            cases.push(Case::plain(small_case(&mut r)));
         }
+        // large-band family: every base position (the promotion walks the sparse map in hash
+        // order, which is a function of the key set; a defect there shows for ~1 base in 1000)
+        let n_bases = if args.thorough() { 8192 } else { 4096 };
+        let kinds = [4u8, 2, 3, 0];
+        for base in 0..n_bases {
+            let kind = kinds[(base / 7 + base) % 4];
+            cases.push(band_mixed(base, 1300, kind, base % 256 == 0));
+            if args.thorough() || base % 2 == (args.seed % 2) as usize {
+                cases.push(band_plain(base, 1100 + (base % 3) * 20, kinds[(base + 1) % 4]));
+            }
+        }
+        rep.exhaustive = true;
+        rep.exhaustive_note = format!(
+            "large-band family: every base in 0..{} with the mixed workload (1300-row id-ordered load + sparser second property + periodic overwrite/remove/clear_row/re-set){}; \\
+             everything else (threshold generator, scenarios, small histories) is sampled",
+            n_bases,
+            if args.thorough() { " and the plain 1100-row load" } else { ", and every second base (parity from the seed) with the plain 1100-row load" }
+        );
     }
 
     let mut first_break: Option<String> = None;
     let mut repr_mismatch = 0u64;
+    let mut real_phase_s = 0f64;
+    let mut seen_band_obs: std::collections::HashMap<(&'static str, String), u32> = std::collections::HashMap::new();
     for chunk in cases.chunks(2000) {
-        let rendered: Vec<String> = chunk.iter().map(|c| render(c)).collect();
+        let rendered: Vec<String> = chunk.iter().map(|c| c.text.clone().unwrap_or_else(|| render(&c.items))).collect();
+        let t_real = std::time::Instant::now();
         let real: Vec<RealRun> = std::thread::scope(|sc| {
             let hs: Vec<_> = chunk
                 .chunks((chunk.len() + 11) / 12)
-                .map(|part| sc.spawn(move || part.iter().map(|c| std::panic::catch_unwind(|| run_real(c)).ok()).collect::<Vec<_>>()))
+                .map(|part| sc.spawn(move || part.iter().map(|c| std::panic::catch_unwind(|| run_real(&c.items)).ok()).collect::<Vec<_>>()))
                 .collect();
             hs.into_iter()
                 .flat_map(|h| h.join().expect("real thread"))
-                .map(|r| r.unwrap_or(RealRun { byid_mismatch: None, obs: "panic".into(), repr_changes: 0, events: vec![] }))
+                .map(|r| r.unwrap_or(RealRun { byid_mismatch: None, obs: "panic".into(), repr_changes: 0, events: vec![], panic_at: None }))
                 .collect()
         });
+        // Large-band cases whose implementation observations are byte-identical to those of a
+        // band already sent to the Lean driver are not sent again: observations carry no row
+        // numbers and both the model and the map specification are invariant under shifting
+        // every row, so the Lean verdict would be the same.  Always sent: the first two bands of
+        // every distinct observation text (so any band that reads differently is checked by
+        // Lean on its own), one band in 128 chosen by the seed, and everything that is not a band.
+        real_phase_s += t_real.elapsed().as_secs_f64();
+        let mut send: Vec<bool> = Vec::with_capacity(chunk.len());
+        for (c, rr) in chunk.iter().zip(real.iter()) {
+            send.push(match c.band {
+                None => true,
+                Some((family, base)) => {
+                    let n = seen_band_obs.entry((family, rr.obs.clone())).or_insert(0u32);
+                    *n += 1;
+                    rr.panic_at.is_none() && (*n <= 2 || base % 128 == (args.seed % 128) as usize)
+                }
+            });
+        }
         let mut lines = Vec::with_capacity(chunk.len() * 2);
-        for (r, o) in rendered.iter().zip(real.iter()) {
-            lines.push(format!("run {}", r));
-            lines.push(format!("spec {} {}", r, o.obs));
+        for ((r, o), snd) in rendered.iter().zip(real.iter()).zip(send.iter()) {
+            if *snd {
+                lines.push(format!("run {}", r));
+                lines.push(format!("spec {} {}", r, o.obs));
+            } else {
+                lines.push("skip".to_string()); // answered `bad-op`; not interpreted
+                lines.push("skip".to_string());
+            }
         }
         if let Ok(p) = std::env::var("VERIF_C30_DUMP") {
             std::fs::write(p, lines.join("\n") + "\n").ok(); // debugging aid: the driver requests of this chunk
@@ -571,22 +757,41 @@ fn main() {
             }
             all
         };
-        for (k, c) in chunk.iter().enumerate() {
+        for (k, case) in chunk.iter().enumerate() {
+            let c = &case.items;
             let m = &replies[2 * k];
             let s = &replies[2 * k + 1];
             let rr = &real[k];
             let nt = rr.events.iter().any(|e| e.starts_with("repr:promotion") || e.starts_with("repr:demotion") || e.starts_with("repr:spill-from-dense"));
             rep.case(&rendered[k], nt);
+            let mut ev: std::collections::BTreeMap<&str, u64> = std::collections::BTreeMap::new();
             for e in &rr.events {
-                rep.count(e);
+                *ev.entry(e).or_insert(0) += 1;
             }
+            let mut n_ops = [0u64; 6];
             for it in c {
-                rep.count(match it {
-                    Item::Set(..) => "op:set_property",
-                    Item::Remove(..) => "op:remove_property",
-                    Item::Clear(..) => "op:clear_row",
-                    Item::Sweep => "obs:full_sweep",
-                });
+                n_ops[match it {
+                    Item::Set(..) => 0,
+                    Item::Remove(..) => 1,
+                    Item::Clear(..) => 2,
+                    Item::Sweep => 3,
+                    Item::QSet(..) => 4,
+                    Item::Probe(..) => 5,
+                }] += 1;
+            }
+            for (name, n) in ["op:set_property", "op:remove_property", "op:clear_row", "obs:full_sweep", "op:set_property(unobserved, id-ordered load)", "obs:row_probe"].iter().zip(n_ops) {
+                if n > 0 {
+                    rep.count_n(name, n);
+                }
+            }
+            for (e, n) in ev {
+                rep.count_n(e, n);
+            }
+            if let Some((family, _)) = case.band {
+                rep.count(&format!("band:{}", family));
+                if rr.events.iter().any(|e| e.starts_with("repr:promotion")) {
+                    rep.count(&format!("band:{}:promotion_observed", family));
+                }
             }
             if nt && rep.samples.len() < 3 {
                 let head: String = rendered[k].chars().take(160).collect();
@@ -594,6 +799,27 @@ fn main() {
             }
             let short = |x: &str| -> String { if x.len() > 4000 { format!("{}…[{} bytes]", &x[..4000], x.len()) } else { x.to_string() } };
             let body = format!("ops {}\nimpl  {}\nmodel {}\nspec  {}", rendered[k], short(&rr.obs), short(m), s);
+            if !send[k] && rr.panic_at.is_none() {
+                rep.count("band:observations_identical_to_a_lean_checked_band(not re-sent)");
+                continue;
+            }
+            if case.band.is_some() && rr.panic_at.is_none() {
+                rep.count("band:lean_checked(model+spec)");
+            }
+            if let Some((step, item)) = &rr.panic_at {
+                rep.count("impl_panic");
+                let whre = match case.band {
+                    Some((family, base)) => format!(" (large-band family `{}`, band starting at row {})", family, base),
+                    None => String::new(),
+                };
+                rep.spec_violation(
+                    &known,
+                    "panic",
+                    &format!("ColumnStore panicked in `{}` (item #{} of a history of {} items){}", item, step, c.len(), whre),
+                    &format!("# panic at item #{} `{}`{}\n{}", step, item, whre, body),
+                );
+                continue;
+            }
             if rr.obs == "panic" {
                 rep.count("impl_panic");
                 rep.spec_violation(&known, "panic", &format!("ColumnStore panicked on a history of {} ops", c.len()), &body);
@@ -605,11 +831,12 @@ fn main() {
             }
             if s != "ok" {
                 let sig = match s.strip_prefix("viol ").and_then(|x| x.parse::<usize>().ok()) {
-                    Some(i) => match &c[i] {
-                        Item::Set(..) => "read-after-set",
-                        Item::Remove(..) => "read-after-remove",
-                        Item::Clear(..) => "read-after-clear-row",
-                        Item::Sweep => "sweep",
+                    Some(i) => match c.iter().filter(|it| !matches!(it, Item::QSet(..))).nth(i) {
+                        Some(Item::Set(..)) => "read-after-set",
+                        Some(Item::Remove(..)) => "read-after-remove",
+                        Some(Item::Clear(..)) => "read-after-clear-row",
+                        Some(Item::Probe(..)) => "read-after-load",
+                        _ => "sweep",
                     },
                     None => "driver-rejected",
                 };
@@ -639,5 +866,6 @@ fn main() {
     let repr_events: std::collections::BTreeMap<String, u64> =
         rep.histogram.iter().filter(|(k, _)| k.starts_with("repr:")).map(|(k, v)| (k.clone(), *v)).collect();
     rep.extra.insert("repr_events".into(), json!(repr_events));
+    rep.extra.insert("real_phase_s".into(), json!(real_phase_s));
     rep.write(&args.out);
 }
